@@ -21,7 +21,7 @@ CHECKS = {
              "{wait 0/2/INF, terminate, kill, three stop sequences}, every point at which the child's end can be released relative to the "
              "library's poll/kill/waitpid/close calls (all alternatives at blocked calls, up to 2 scheduling deviations elsewhere) and, in the "
              "thorough tier, every single fault at poll/waitpid/kill (waitpid also answering ECHILD: somebody else reaped the child, after which no status may "
-             "ever be returned) and two-handle configurations (the first started with input and given up while the second child runs; a deadline that has passed before/after the status exists): status equals the ending the harness caused, is never returned while the "
+             "ever be returned) and two-handle configurations (the first started with input and given up while the second child runs; a deadline that has passed before/after the status exists; the exit learnt through poll on a handle without stream pipes): status equals the ending the harness caused, is never returned while the "
              "child ledger says running, is stable with zero further system calls, exactly one successful reap, no zombie."),
     "C04": dict(
         cat="model_checking", design="3/C04",
@@ -30,7 +30,7 @@ CHECKS = {
              "a standard descriptor of the parent as source of another stream, parent streams with stdin and stderr closed) "
              "x every answer of every fault menu at every libc call reproc_start makes in the parent and in the forked child, one at a time (quick) and "
              "in pairs (thorough); 12 natural failures with the real exec (missing/non-executable/over-long program, bad working directory, unusable "
-             "redirect path, oversized input, name not in PATH, a stream sent to its own descriptor number that the caller has closed), each also combined with every single fault. Oracle by outcome: either a negative result that "
+             "redirect path, oversized input, name not in PATH, a stream sent to its own descriptor number that the caller has closed, launch failures with descriptors 0-2 all closed and everything discarded), each also combined with every single fault. Oracle by outcome: either a negative result that "
              "is the errno of a failing call, no child left, pid EINVAL, terminate/kill/wait refused without a system call, handle startable again (a deadline given to the "
              "failed natural-failure start must not survive into a restart without one) - or success with positive ledger pid, the helper image "
              "really running, stream identities right and a write/read/wait round trip."),
@@ -71,14 +71,14 @@ CHECKS = {
         technique="stateless model checking of the real library: the C07 space driven through options.stop + reproc_destroy, plus handle-state enumeration",
         text="The C07 space through reproc_start(options.stop) + reproc_destroy (no result: judged from the child ledger, signals and virtual return "
              "time), the default policy (returns only with the child reaped, SIGTERM not before the deadline and never without one), destroy on "
-             "NULL / never started / failed start / rejected options (no kill, poll, waitpid or close; ledgers clean), the forked side (h_start), and a "
+             "NULL / never started / failed start / rejected options (no kill, poll, waitpid or close; ledgers clean), the forked side (h_start), the reproc++ destructor (h_c15_cxx: the signals sent are exactly those the policy given at start means for the child), and a "
              "handle whose first start failed with a deadline before the real start without one, the deadline given as REPROC_INFINITE, a clock that jumps 7 ms at one of the library's clock reads (order, completeness and liveness only), and a handle whose child has exited but whose reap was "
              "interrupted (an earlier wait returned EINTR)."),
     "C08": dict(
         cat="model_checking", design="3/C08",
         technique="stateless model checking of the real library under a virtual clock: exhaustive enumeration of source orders/deadlines/timeouts x blocked-call outcomes (every elapsed millisecond, timeout expiry, signal interruption) x clock-read deviations",
         text="reproc_wait: timeout {0,1,2,3,INFINITE,DEADLINE} x deadline {none,1,2,3,INT_MAX} x child {idle, exits at any point, two waits, fork mode, exited "
-             "before the call, call 4 ms late with the child exited / idle, idle on a handle whose first start with a 1 ms deadline failed}. Poll sources also {deadline 2 ms, exited and waited for}. "
+             "before the call, call 4 ms late with the child exited / idle, idle on a handle whose first start with a 1 ms deadline failed}. Poll sources also {deadline 2 ms, exited and waited for; expired, exited and waited for: the deadline event is still required}. "
              "reproc_poll: 1..2 (thorough 3) sources in every order, each {no process, no deadline, deadline 1/2/3 ms, already expired} x interests "
              "{EXIT, OUT, OUT|EXIT} x timeout {0,1,2,3,INFINITE} x children {idle, write, exit}, polled twice. Every alternative at every blocked OS "
              "poll (child event after each elapsed ms, expiry, EINTR after each elapsed ms) and clock jumps at clock reads, one deviation (quick) / two "
@@ -89,7 +89,7 @@ CHECKS = {
         cat="model_checking", design="3/C09",
         technique="stateless model checking of the real library: exhaustive enumeration of stream/child states x interest masks x schedules, with kernel truth probes after every poll",
         text="1 and 3 sources (one of them process-less) x all 16 interest masks x stdout {idle, data pending, closed by child, closed by parent, EOF "
-             "already reported, not a pipe} x stdin {idle, closed by child, closed by parent, pipe exactly full, full and then closed by the child, closed by the library after start-up input} x stderr {pipe, parent} x child {running, zombie, reaped} x "
+             "already reported, not a pipe} x stdin {idle, closed by child, closed by parent, pipe exactly full, full and then closed by the child, closed by the library after start-up input} x stdout also {idle after a read interrupted by a signal} x stderr {pipe, parent} x child {running, zombie, reaped} x "
              "timeout {0, 2} x an expired deadline on the last source, with one remaining child step released at any scheduling/blocked point. After "
              "each return the harness polls the parent's own descriptors (matched to the child's by pipe inode): events == requested and ready, count == "
              "sources with events, EPIPE iff nothing requested is pollable, and every reported event is consumed (read / 1-byte write / wait(0)) without "
@@ -104,7 +104,7 @@ CHECKS = {
              "for small payloads) and at every blocked read/write/poll. Position-dependent payload: every returned byte is compared with what the child "
              "wrote at that offset (kernel write order for the merged stream); EPIPE only once the child has closed every descriptor on the stream and all "
              "bytes were returned, then sticky without a system call; stdin bytes and EOF arrive; a blocked read after the child closed the stream is a violation; "
-             "after a write was refused because the reader is gone, no later write is accepted or lands in a descriptor the caller opened since; the child's own pipe ends are blocking."),
+             "after a write was refused because the reader is gone, no later write is accepted or lands in a descriptor the caller opened since; the child's own pipe ends are blocking (writes after the reader has gone also with stdout to the parent / a caller's handle)."),
     "C16": dict(
         cat="model_checking", design="3/C16",
         technique="stateless model checking of the real library: exhaustive interleavings x sink failure position x allocation-failure position x deadline expiry point, protocol oracle over the recorded sink calls",
@@ -113,7 +113,7 @@ CHECKS = {
              "deadline {none, 1..3 ms} expiring before/between/after output, through reproc_drain and reproc_run_ex. Oracle: two initial (in, 0) calls, "
              "chunks equal the stream byte for byte, exactly one size-0 call per piped stream after its data, 0 iff both ended, first non-zero sink value "
              "returned with no later call, ETIMEDOUT only at the deadline and no call inside drain still blocked after it, string = previous content + bytes "
-             "(intact after ENOMEM), run_ex = exit status (also after a positive sink result, which only stops the draining); drain on a handle restarted after a failed start with a deadline. The reproc++ templates reproc::drain / reproc::run with lambda sinks and sink::string are "
+             "(intact after ENOMEM), run_ex = exit status (also after a positive sink result, which only stops the draining); drain on a handle restarted after a failed start with a deadline; drain called after the deadline with output waiting (no chunk after the deadline). The reproc++ templates reproc::drain / reproc::run with lambda sinks and sink::string are "
              "instantiated in a C++ harness (h_c16_cxx) over the same interposed C objects and judged by the same protocol clauses."),
     "C17": dict(
         cat="model_checking", design="3/C17",
@@ -158,7 +158,7 @@ CHECKS = {
              "environments {empty, 1, 40 entries, duplicate key}; program named absolutely / ./dir/prog / dir/prog / ../x/prog / by bare name through PATH "
              "x working_directory {unset, relative, with spaces, absolute} x EXTEND/EMPTY, a decoy program of the same relative name under each child directory, "
              "and every single failure of getcwd/malloc/calloc/realloc during the start (a clean error or the right program); parent cwd lengths 100..20000 bytes around PATH_MAX under "
-             "ASan/UBSan; argument and environment containers through reproc++ (h_c03_cxx, sanitizer build, entry lengths around allocator size classes). Oracle: the helper's argv/envp/getcwd byte for byte; the helper image really ran (resolved against the parent's cwd); beyond "
+             "ASan/UBSan; argument and environment containers through reproc++ (h_c03_cxx, sanitizer build, entry lengths around allocator size classes; reproc::run(arguments, options) keeps working directory, environment and arguments). Oracle: the helper's argv/envp/getcwd byte for byte; the helper image really ran (resolved against the parent's cwd); beyond "
              "PATH_MAX a negative result, no child, no sanitizer report. Outside the bound: strings longer than 2 bytes beyond the two long cases."),
     "C14": dict(
         cat="model_checking", design="3/C14 + Appendix E",
@@ -203,7 +203,7 @@ CHECKS = {
              "shows no descriptor of the other thread's pipes, and right after a thread's close(IN) its own child sees EOF with nobody else moving - all "
              "schedules with <=1 preemption (thorough <=2), emulated and real exec. (A) writer thread (3 + cap+1 bytes, close) and reader thread on one "
              "echo child, <=2 (3) preemptions: reader gets exactly the writer's bytes. (C) reproc_strerror from two threads with a switch between call "
-             "and use. (H) a writer and a waiter on one child. (G) two threads running short life cycles with one close() of the library interrupted. (E) one thread whose starts fail after the fork beside another thread's whole life cycle: every waitpid/kill names the caller's own child. (D) two threads each draining its own echo child with reproc_drain, the sink yielding before it looks at its chunk: only its own bytes. "
+             "and use. (H) a writer and a waiter on one child. (I) two threads starting children whose stderr is merged into stdout. (G) two threads running short life cycles with one close() of the library interrupted. (E) one thread whose starts fail after the fork beside another thread's whole life cycle: every waitpid/kill names the caller's own child. (D) two threads each draining its own echo child with reproc_drain, the sink yielding before it looks at its chunk: only its own bytes. "
              "Data races below call granularity are looked for by a free-running TSan build (60 / 400 runs of three concurrent life cycles, two concurrent drains of 64 KiB and a "
              "reader/writer pair on real cat/sh children): a monitor, not an enumeration."),
 }
